@@ -162,6 +162,16 @@ class Check:
     def ground(self, name, ok, detail=''):
         self.grounds.append((name, bool(ok), detail))
 
+    def shape(self, name, ok, detail=''):
+        """an expectation about the SHAPE of the code (which algorithm, how many calls, which constants appear) that the obligations of
+        a check are written against.  It is not part of the property: when it fails the check cannot decide (exit 2) -- it is never
+        reported as a violation, so a correct re-implementation is not alarmed on; a broken one has to be caught semantically."""
+        if ok:
+            self.grounds.append(('[shape] ' + name, True, detail))
+        else:
+            self.shape_failures = getattr(self, 'shape_failures', [])
+            self.shape_failures.append((name, detail))
+
     def note(self, s):
         self.notes.append(s)
 
